@@ -280,6 +280,10 @@ func main() {
 	for _, t := range textgen.AttributeInterleavings(run.Thorough()) {
 		jobs = append(jobs, job{t, "attribute-interleaving", "as-is", "attribute-interleaving"})
 	}
+	// files longer than a reader buffer, written compactly
+	for _, n := range []int{60, 120, 1200} {
+		jobs = append(jobs, job{textgen.CompactLarge(n), fmt.Sprintf("compact-%d-definitions", n), "one-definition-per-line", "large-file"})
+	}
 	// the repository's own schemas
 	dir := vlib.RepoDir() + "/testdata/base"
 	ents, _ := os.ReadDir(dir)
